@@ -61,8 +61,21 @@ pub fn run(opts: &Opts) -> Report {
         let mut msgs: Vec<Msg> = Vec::new();
         let k = rng.range(0, 40) as usize;
         random_history(store, &t, &mut rng, k, &mut msgs);
-        let nops = rng.range(2, 7);
-        for _ in 0..nops {
+        let mut nops = rng.range(2, 7);
+        // structured sequences the random choice rarely produces: a job left in flight by
+        // schedule(execute=false), then dry runs / blocking / non-blocking schedules on the same stride
+        // (choice, stride, other, block_on_inflight, execute, dry_run)
+        let mut forced: std::collections::VecDeque<(u64, Option<u64>, Option<u64>, bool, bool, bool)> = std::collections::VecDeque::new();
+        if rng.chance(1, 3) {
+            let s = Some(rng.range(1, 3));
+            forced.push_back((8, s, Some(2), rng.chance(1, 2), false, false));
+            forced.push_back((8, s, Some(2), true, rng.chance(1, 2), true));
+            forced.push_back((6, s, Some(2), false, false, true));
+            forced.push_back((8, s, Some(2), true, true, false));
+            forced.push_back((8, s, Some(2), false, true, false));
+            nops += forced.len() as u64;
+        }
+        for op_no in 0..nops {
             let before = ts.frames();
             let thread_frames: Vec<&Value> = before.iter().filter(|f| f["session_id"].as_str() == Some(t.as_str())).collect();
             let mut canon = Canon::default();
@@ -80,11 +93,17 @@ pub fn run(opts: &Opts) -> Report {
                 })
                 .collect();
             let head = format!("c09 {} {}", toks.len(), toks.join(" "));
-            let stride = *rng.pick(&nums);
-            let other = *rng.pick(&nums);
-            let (b1, b2, b3) = (rng.chance(1, 2), rng.chance(1, 2), rng.chance(1, 4));
+            let mut stride = *rng.pick(&nums);
+            let mut other = *rng.pick(&nums);
+            let (mut b1, mut b2, mut b3) = (rng.chance(1, 2), rng.chance(1, 2), rng.chance(1, 4));
             rep.evaluations += 1;
-            let choice = rng.below(10);
+            let mut choice = rng.below(10);
+            if op_no >= 2 {
+                if let Some(f) = forced.pop_front() {
+                    (choice, stride, other, b1, b2, b3) = f;
+                    rep.count("structured_inflight_ops");
+                }
+            }
             let (op_desc, model_line, impl_line): (String, String, String) = match choice {
                 0..=2 => {
                     let r = store.compaction_cut_points_v1(&t, CompactionCutPointsV1Request { stride_messages: stride, limit: other.map(|x| x as u32) });
